@@ -13,6 +13,7 @@ static qnode Q[QMAX]; static int nq;
 static qitem *IT; static int nitems;
 static qop *client_ops[MAX_CLIENTS]; static int client_nops[MAX_CLIENTS]; static int nclients;
 static int next_op_idx;
+static int spec_by_clients, spec_ready; static sim_event spec_ev;
 static dispatch_group_t grp;
 static sim_event gate_ev;
 static int items_done, items_expected, clients_done;
@@ -384,7 +385,8 @@ static void create_queues(void) {
 		if (G->specific && n->kind != QK_GLOBAL && n->kind != QK_MAIN && n->kind != QK_WORKLOOP) {
 			for (int k = 0; k < 4; k++) if (g_chance(1, 3)) {
 				n->spec[k] = (void *)(uintptr_t)(0x1000 + i * 16 + k);
-				dispatch_queue_set_specific(n->q, &keys[k], n->spec[k], NULL);
+				// either here, one after the other, or by the client threads at once (spec_by_clients)
+				if (!spec_by_clients) dispatch_queue_set_specific(n->q, &keys[k], n->spec[k], NULL);
 			}
 		}
 	}
@@ -663,6 +665,16 @@ static void premark(qop *ops, int n, bool off) {
 
 static void *client_main(void *arg) {
 	int c = (int)(intptr_t)arg;
+	if (spec_by_clients) {
+		// the queue-specific values are set by all client threads at once, each its own keys (key k by client k mod n),
+		// also on queues that have no specific data yet; nobody submits anything before every call has returned
+		for (int i = 0; i < nq; i++) for (int k = 0; k < 4; k++) if (Q[i].spec[k] && k % nclients == c) {
+			dispatch_queue_set_specific(Q[i].q, &keys[k], Q[i].spec[k], NULL);
+			sim_point();
+		}
+		if (++spec_ready == nclients) sim_event_signal(&spec_ev);
+		else sim_event_wait(&spec_ev, LIVENESS_NS);
+	}
 	run_ops(client_ops[c], client_nops[c], c, NULL);
 	clients_done++;
 	h_log("client %d done", c);
@@ -793,7 +805,9 @@ void qprog_run(const qgen *g) {
 	G = g;
 	gen_program();
 	for (int c = 0; c < nclients; c++) premark(client_ops[c], client_nops[c], false);
+	spec_by_clients = G->specific && g_chance(1, 2);
 	render_program();
+	if (spec_by_clients) h_sample("(queue-specific values are set by the client threads concurrently)\n");
 	if (G->use_main && G->dispatch_main) h_sample("(the main thread calls dispatch_main(): the main queue becomes an ordinary serial queue)\n");
 	h_announce();
 	create_queues();
